@@ -8,6 +8,7 @@ package shmipc
 // and the listener closed at a tape-chosen moment.
 
 import (
+	"os"
 	"encoding/binary"
 	"encoding/json"
 	"fmt"
@@ -160,6 +161,30 @@ func (netadScenario) Shrink(plan interface{}) []interface{} {
 
 func (netadScenario) Post(plan interface{}, res *simrt.Result, rec *RunRecord) {
 	rec.Nontrivial = res.Counters["netad.accepted"] > 0 && res.Switches > 200
+}
+
+// naAttribute (debugging aid) finds the key and position the bytes were generated for.
+func naAttribute(b []byte) string {
+	if len(b) < 6 {
+		return "too short"
+	}
+	for key := uint32(0); key < 16; key++ {
+		for _, k := range []uint32{key, key ^ 0x5555} {
+			for i := 0; i < 100000; i++ {
+				ok := true
+				for j := range b {
+					if naByte(k, i+j) != b[j] {
+						ok = false
+						break
+					}
+				}
+				if ok {
+					return fmt.Sprintf("key %#x position %d", k, i)
+				}
+			}
+		}
+	}
+	return "nothing generated by this run"
 }
 
 func naByte(key uint32, i int) byte {
@@ -433,6 +458,17 @@ func (w *naWorld) clientStream(sess *Session, cs *naConnState) {
 			}
 			for i := 0; i < n; i++ {
 				if buf[i] != naByte(cs.key^0x5555, cs.echoGot+i) {
+					if os.Getenv("VSIM_DEBUG_BYTES") != "" {
+						hi := i + 12
+						if hi > n {
+							hi = n
+						}
+						want := make([]byte, hi-i)
+						for k := range want {
+							want[k] = naByte(cs.key^0x5555, cs.echoGot+i+k)
+						}
+						fmt.Fprintf(os.Stderr, "DEBUG echo: n=%d i=%d got=%x want=%x attribution=%s\n", n, i, buf[i:hi], want, naAttribute(buf[i:hi]))
+					}
 					simrt.Fail("C19.wrong_bytes", "stream %d: echoed byte %d is wrong", cs.key, cs.echoGot+i)
 					return
 				}
